@@ -716,6 +716,32 @@ def generate(repo):
     except Untranslatable as ex:
         out += [f"def relaxBody : S := S.fail {lean_str('untranslatable: ' + str(ex))}", ""]
         rep["relaxBody"] = dict(ok=False, why=str(ex))
+    # the bookkeeping between the pop and the neighbour loop
+    try:
+        if not roles:
+            raise Untranslatable(rep["roles"]["why"])
+        ren = array_roles(mod, roles)
+        loop = roles["loop"]
+        stmts = []
+        seen_pop = False
+        for st in loop.body:
+            if st is roles["zip"]:
+                break
+            if isinstance(st, ast.Assign) and isinstance(st.value, ast.Call) and call_name(st.value.func) == "_min_cost_pixel_id":
+                seen_pop = True
+                continue
+            if seen_pop and isinstance(st, ast.Assign) and isinstance(st.targets[0], ast.Subscript):
+                stmts.append(st)
+        if not stmts:
+            raise Untranslatable("no bookkeeping statements between the pop and the neighbour loop")
+        tr = VecRename(mod, roles["func"], cells={roles["u"]: "u", roles["v"]: "v"}, rename=ren)
+        out += ["/-- the array updates of `_a_star_search` between `py, px = _min_cost_pixel_id(...)` and the neighbour loop",
+                "    (`A@u` = `A[py][px]`) -/",
+                f"def popBody : S :=\n {tr.block(stmts)}", ""]
+        rep["popBody"] = dict(ok=True, statements=len(stmts))
+    except Untranslatable as ex:
+        out += [f"def popBody : S := S.fail {lean_str('untranslatable: ' + str(ex))}", ""]
+        rep["popBody"] = dict(ok=False, why=str(ex))
     # min-cost selection
     try:
         init, lb, row_major, tr = min_cost(mod)
